@@ -165,6 +165,15 @@ var (
 	bases  = map[string]*baseline{}
 )
 
+func hasHVR(b *baseline) bool {
+	for _, t := range b.targets {
+		if !t.FromClient && t.Type == hsHelloVerifyRequest {
+			return true
+		}
+	}
+	return false
+}
+
 func seedFor(env run.Env) uint64 { return 0xC04 + env.Seed }
 
 // getBaseline runs the mode through a pass-through MITM (cached per process).
@@ -202,6 +211,10 @@ type c04case struct {
 	m   *mode
 	tgt target
 	mu  mut
+	// loseHVR: the first HelloVerifyRequest is lost on the way, so the client sends its first ClientHello
+	// again (altered again by the attacker) before the cookie exchange goes on: the server handles the first
+	// ClientHello twice
+	loseHVR bool
 }
 
 // runCase executes one (mode, target, mutation).
@@ -227,6 +240,9 @@ func runCase(t *testing.T, p *world.PKI, cs c04case, seed uint64) run.Outcome {
 			return
 		}
 		at := newMITM(w, pr, &cs.tgt, &cs.mu)
+		if cs.loseHVR {
+			at.dropHVR = 1
+		}
 		tr := &world.Tracer{}
 		tr.Visit(pr.StateString(nil), "init")
 		at.onEvent = func(ev string) { tr.Visit(pr.StateString(nil), ev) }
@@ -476,6 +492,13 @@ func TestC04(t *testing.T) {
 				perMode[m.name]++
 				cases = append(cases, run.Case{ID: fmt.Sprintf("%s/%s/%s", m.name, tg, mu.Name),
 					Run: func(t *testing.T) run.Outcome { return runCase(t, p, cs, seed) }})
+				if tg.FromClient && tg.Type == hsClientHello && tg.Seq == 0 && hasHVR(b) {
+					cl := cs
+					cl.loseHVR = true
+					perMode[m.name]++
+					cases = append(cases, run.Case{ID: fmt.Sprintf("%s/%s/%s+hvr-lost", m.name, tg, mu.Name),
+						Run: func(t *testing.T) run.Outcome { return runCase(t, p, cl, seed) }})
+				}
 			}
 		}
 	}
